@@ -38,6 +38,17 @@ def next_calls(node, iter_name):
     ]
 
 
+def choice_counter_name(fn):
+    """the local that is stored as the result's `choice_count` (whatever it is called)"""
+    for st in A.find(fn["body"], "Struct"):
+        for x in st.get("fields", []):
+            if x["name"] == "choice_count":
+                n = A.ident(A.strip(x["e"])) if x.get("e") is not None else "choice_count"
+                if n:
+                    return n
+    return "choice_count"
+
+
 def choice_iter_name(fn):
     for s in A.find(fn["body"], "Let"):
         init = s.get("init")
@@ -243,7 +254,7 @@ def r2_left_right(rule, root=None):
         b = cases["Both"]["body"]
         probs = _remap_problems(b, idx_n, [a_n] if b_is_imm else [a_n, b_n], new_n)
         txt = A.ftxt(b)
-        if "(choice_count+=1)" not in txt:
+        if "(%s+=1)" % choice_counter_name(fn) not in txt:
             probs.append("does not count the surviving choice (`choice_count += 1`)")
         if probs:
             for p in probs:
@@ -478,7 +489,7 @@ def r_tail(rule, root=None):
         rule.ok("result shares self.vars")
     ssa = f.get("ssa")
     sf = {x["name"]: A.ftxt(x["e"]) for x in (A.strip(ssa) or {}).get("fields", [])} if ssa else {}
-    want = {"tape": OPS, "choice_count": "choice_count", "output_count": "output_count"}
+    want = {"tape": OPS, "choice_count": choice_counter_name(fn), "output_count": "output_count"}
     if sf != want:
         rule.bad("result|ssa", "the simplified SsaTape must be { tape: ops_out, choice_count, output_count }, found %s" % sf, A.where(fn, structs[0]))
     else:
